@@ -15,7 +15,7 @@ RULE = (
     "MOST/MOSTM/CONSTANT, z_m in [2,5], roughness-length forcing, a square or oblong grid (32..64 cells per axis, dx 1..5 z_m, "
     "dy/dx in [0.7,1.4]), halo default or domain/3 (never 0: the plume would wrap around a bare periodic domain), any reference "
     "lat/lon, and a tower placed by latitude/longitude in the central 30 % of the domain. The configuration is built with "
-    "parse_config_dict and run with run_bldfm_single (footprint, double), then once more in the same process with the same met "
+    "parse_config_dict and run with run_bldfm_single (footprint, double; in a quarter of the cases the result examined is the one a second identical call reads back from the Green's-function cache), then once more in the same process with the same met "
     "state and the direction turned by 90..270 degrees. Oracle (both runs): bearing from the tower to the centroid of the "
     "positive part of the footprint inside the largest tower-centred disc that fits the grid equals wind_dir within 12 degrees "
     "(asserted on resolved domains: the returned window holds >= 80 % of the footprint's unit mass - otherwise the plume leaves the padded periodic domain and wraps around -, >= 50 % of the positive mass is inside the disc and the centroid is >= 3 cells away); compute_wind_fields "
@@ -60,6 +60,7 @@ def _case(draw):
                                st.sampled_from([0.0, -0.002, -0.0005, 0.001, 179.998, -179.999])))],
         "halo": draw(st.sampled_from(["default", "third"])), "nz": draw(st.integers(8, 16)),
         "turn": draw(st.sampled_from([90.0, 135.0, 180.0, 225.0, 270.0])),
+        "cached": draw(st.integers(0, 3)) == 0,
     }
 
 
@@ -115,12 +116,34 @@ def _end_to_end(case, wd, out, primary):
         "solver": {"closure": case["closure"], "footprint": True, "precision": "double"},
     })
     try:
-        r = run_bldfm_single(cfg, cfg.towers[0])
+        if case.get("cached") and primary:
+            # the same run answered from the Green's-function cache (stored by a first call, read back by the second)
+            import shutil
+            import tempfile
+
+            from bldfm.cache import GreensFunctionCache
+
+            from .. import env
+
+            d = tempfile.mkdtemp(prefix="c08-cache-", dir=str(env.scratch()))
+            try:
+                cache = GreensFunctionCache(d)
+                run_bldfm_single(cfg, cfg.towers[0], cache=cache)
+                r = run_bldfm_single(cfg, cfg.towers[0], cache=cache)
+            finally:
+                shutil.rmtree(d, ignore_errors=True)
+            out.label("served-from-cache")
+        else:
+            r = run_bldfm_single(cfg, cfg.towers[0])
     except Exception as e:
         out.bad(f"run_bldfm_single raised {type(e).__name__}: {e}")
         return
     X, Y, _ = r["grid"]
     f = r["flx"]
+    if not (np.shape(X) == np.shape(Y) == np.shape(f) == (ny, nx)):
+        out.bad(f"result for a {ny}x{nx} (rows x columns) domain has footprint shape {np.shape(f)} on coordinate arrays of shape "
+                f"{np.shape(X)}, {np.shape(Y)}{' (answer read back from the cache)' if case.get('cached') and primary else ''}")
+        return
     tx, ty = r["tower_xy"]
     if not (abs(tx - tx0) <= 1e-3 and abs(ty - ty0) <= 1e-3):
         out.bad(f"tower placed at {(tx0, ty0)} m by lat/lon is reported at {(tx, ty)}")
